@@ -10,8 +10,8 @@ open AlgoVerif.Model.LedgerCore
 /-- the context of the child of a group evaluated on top of `top` -/
 def childCtx (x : Ctx) (top : Layer) : Ctx := { x with parents := top :: x.parents }
 
-theorem evalGroupChild_steps {P : Params} {x : Ctx} {top child : Layer} {g : List Txn}
-    (h : evalGroupChild P x top g = .ok child) : Steps (childCtx x top) {} child := by
+theorem evalGroupChild_steps {P : Params} {x : Ctx} {top child : Layer} {used : Nat} {g : List Txn}
+    (h : evalGroupChild P x top used g = .ok child) : Steps (childCtx x top) {} child := by
   unfold evalGroupChild at h
   split at h
   · cases h
@@ -25,19 +25,19 @@ theorem evalGroupChild_steps {P : Params} {x : Ctx} {top child : Layer} {g : Lis
         · split at h
           · cases h
           · cases h
-            exact groupLoop_steps _ _ _ _ hc
+            exact groupLoop_steps _ _ _ _ _ hc
 
-theorem evalGroupChild_wf {P : Params} {x : Ctx} {top child : Layer} {g : List Txn}
-    (h : evalGroupChild P x top g = .ok child) : Layer.WF child :=
+theorem evalGroupChild_wf {P : Params} {x : Ctx} {top child : Layer} {used : Nat} {g : List Txn}
+    (h : evalGroupChild P x top used g = .ok child) : Layer.WF child :=
   wf_steps (evalGroupChild_steps h) wf_empty
 
-theorem evalGroupChild_coherent {P : Params} {x : Ctx} {top child : Layer} {g : List Txn}
-    (h : evalGroupChild P x top g = .ok child) : Coherent (childCtx x top) child :=
+theorem evalGroupChild_coherent {P : Params} {x : Ctx} {top child : Layer} {used : Nat} {g : List Txn}
+    (h : evalGroupChild P x top used g = .ok child) : Coherent (childCtx x top) child :=
   coherent_steps (evalGroupChild_steps h) (coherent_empty _)
 
 /-- an accepted non-empty group: the child evaluated to the end, committed; the payset extended -/
 theorem evalGroup_ok {P : Params} {x : Ctx} {s s' : EvalState} {g : List Txn} (hg : g ≠ []) (h : evalGroup P x s g = .ok s') :
-    ∃ child, evalGroupChild P x s.top g = .ok child ∧ s' = { top := commitToParent child s.top, payset := s.payset ++ g } := by
+    ∃ child, evalGroupChild P x s.top s.txBytes g = .ok child ∧ s' = { top := commitToParent child s.top, payset := s.payset ++ g, txBytes := s.txBytes + groupBytes g } := by
   unfold evalGroup at h
   split at h
   · exact absurd rfl hg
@@ -81,8 +81,8 @@ theorem money_commit (P : Params) (x : Ctx) (c p : Layer) (hw : Layer.WF c) (U :
 /-- the addresses a group may touch -/
 def groupAddrs (P : Params) (g : List Txn) : List Addr := g.flatMap (txnAddrs P)
 
-theorem evalGroupChild_conserves {P : Params} {x : Ctx} {top child : Layer} {g : List Txn} {U : List Addr}
-    (hU : U.Nodup) (hA : ∀ a ∈ groupAddrs P g, a ∈ U) (h : evalGroupChild P x top g = .ok child) :
+theorem evalGroupChild_conserves {P : Params} {x : Ctx} {top child : Layer} {used : Nat} {g : List Txn} {U : List Addr}
+    (hU : U.Nodup) (hA : ∀ a ∈ groupAddrs P g, a ∈ U) (h : evalGroupChild P x top used g = .ok child) :
     money P (childCtx x top) child U = money P x top U := by
   unfold evalGroupChild at h
   split at h
@@ -97,7 +97,7 @@ theorem evalGroupChild_conserves {P : Params} {x : Ctx} {top child : Layer} {g :
         · split at h
           · cases h
           · cases h
-            have := groupLoop_conserves (P := P) (x := childCtx x top) hU g 0 {} child
+            have := groupLoop_conserves (P := P) (x := childCtx x top) hU g used 0 {} child
               (fun t ht a ha => hA a (List.mem_flatMap.mpr ⟨t, ht, ha⟩)) hc
             rw [this]; rfl
 
